@@ -309,6 +309,102 @@ pub mod vtls {
     pub type CachedThreadLocal<T> = ThreadLocal<T>;
 }
 
+/// Drop-in for `parking_lot` in the instrumented build (`Mutex`, `RwLock` and their guards; no
+/// poisoning, guards returned directly). A real parking_lot lock held across a scheduling point
+/// would block the one OS thread that all simulated threads share.
+pub mod vpl {
+    use std::sync::TryLockError;
+    pub type MutexGuard<'a, T> = shuttle::sync::MutexGuard<'a, T>;
+    pub type RwLockReadGuard<'a, T> = shuttle::sync::RwLockReadGuard<'a, T>;
+    pub type RwLockWriteGuard<'a, T> = shuttle::sync::RwLockWriteGuard<'a, T>;
+
+    pub struct Mutex<T: ?Sized>(shuttle::sync::Mutex<T>);
+    impl<T> Mutex<T> {
+        pub const fn new(v: T) -> Self {
+            Mutex(shuttle::sync::Mutex::new(v))
+        }
+        pub fn into_inner(self) -> T {
+            self.0.into_inner().unwrap_or_else(|e| e.into_inner())
+        }
+    }
+    impl<T: ?Sized> Mutex<T> {
+        pub fn lock(&self) -> MutexGuard<'_, T> {
+            self.0.lock().unwrap_or_else(|e| e.into_inner())
+        }
+        pub fn try_lock(&self) -> Option<MutexGuard<'_, T>> {
+            match self.0.try_lock() {
+                Ok(g) => Some(g),
+                Err(TryLockError::Poisoned(e)) => Some(e.into_inner()),
+                Err(TryLockError::WouldBlock) => None,
+            }
+        }
+        pub fn get_mut(&mut self) -> &mut T {
+            self.0.get_mut().unwrap_or_else(|e| e.into_inner())
+        }
+    }
+    impl<T: Default> Default for Mutex<T> {
+        fn default() -> Self {
+            Mutex::new(T::default())
+        }
+    }
+    impl<T: ?Sized> std::fmt::Debug for Mutex<T> {
+        fn fmt(&self, f: &mut std::fmt::Formatter<'_>) -> std::fmt::Result {
+            f.write_str("Mutex(..)")
+        }
+    }
+    pub const fn const_mutex<T>(v: T) -> Mutex<T> {
+        Mutex::new(v)
+    }
+
+    pub struct RwLock<T: ?Sized>(shuttle::sync::RwLock<T>);
+    impl<T> RwLock<T> {
+        pub const fn new(v: T) -> Self {
+            RwLock(shuttle::sync::RwLock::new(v))
+        }
+        pub fn into_inner(self) -> T {
+            self.0.into_inner().unwrap_or_else(|e| e.into_inner())
+        }
+    }
+    impl<T: ?Sized> RwLock<T> {
+        pub fn read(&self) -> RwLockReadGuard<'_, T> {
+            self.0.read().unwrap_or_else(|e| e.into_inner())
+        }
+        pub fn write(&self) -> RwLockWriteGuard<'_, T> {
+            self.0.write().unwrap_or_else(|e| e.into_inner())
+        }
+        pub fn try_read(&self) -> Option<RwLockReadGuard<'_, T>> {
+            match self.0.try_read() {
+                Ok(g) => Some(g),
+                Err(TryLockError::Poisoned(e)) => Some(e.into_inner()),
+                Err(TryLockError::WouldBlock) => None,
+            }
+        }
+        pub fn try_write(&self) -> Option<RwLockWriteGuard<'_, T>> {
+            match self.0.try_write() {
+                Ok(g) => Some(g),
+                Err(TryLockError::Poisoned(e)) => Some(e.into_inner()),
+                Err(TryLockError::WouldBlock) => None,
+            }
+        }
+        pub fn get_mut(&mut self) -> &mut T {
+            self.0.get_mut().unwrap_or_else(|e| e.into_inner())
+        }
+    }
+    impl<T: Default> Default for RwLock<T> {
+        fn default() -> Self {
+            RwLock::new(T::default())
+        }
+    }
+    impl<T: ?Sized> std::fmt::Debug for RwLock<T> {
+        fn fmt(&self, f: &mut std::fmt::Formatter<'_>) -> std::fmt::Result {
+            f.write_str("RwLock(..)")
+        }
+    }
+    pub const fn const_rwlock<T>(v: T) -> RwLock<T> {
+        RwLock::new(v)
+    }
+}
+
 /// Drop-in for `std::thread`.
 pub mod vthread {
     pub use shuttle::thread::*;
